@@ -17,6 +17,11 @@ pub fn c20(rng: &mut Rng, thorough: bool, idx: u64) -> Spec {
     cfg.set("healthcheck_delay", *rng.pick(&[0u64, 30000]));
     cfg.set("ban_time", 60);
     cfg.pools[0].lb = rng.pick(&["random", "loc"]).to_string();
+    // a third of the runs: the prewarmer plugin runs a query on every new server connection
+    if rng.chance(0.33) {
+        cfg.pools[0].query_parser_enabled = true;
+        cfg.plugins = Some("\n[plugins]\n\n[plugins.prewarmer]\nenabled = true\nqueries = [\"SELECT 'warm-up'\"]\n".into());
+    }
     let mut mirrors: Vec<(String, usize)> = Vec::new();
     if mode != 0 {
         let n_on_primary = rng.range(1, 2);
